@@ -1,0 +1,40 @@
+//go:build verif
+// +build verif
+
+package rafthttp
+
+import (
+	"fmt"
+	"io"
+
+	"github.com/youzan/ZanRedisDB/pkg/types"
+	"github.com/youzan/ZanRedisDB/snap"
+)
+
+// Verification hooks (build tag verif only), read-only.
+
+// VerifCreateSnapBody is the request body snapshotSender.send posts for a snapshot message.
+func VerifCreateSnapBody(m snap.Message) io.ReadCloser { return createSnapBody(m) }
+
+// VerifPeerWriters reports, for the peer with the given id, whether its msgappv2 / message stream
+// writers currently have a connection attached and an identity of that connection, so that a harness
+// can tell when a re-dialled connection has replaced the previous one.
+func VerifPeerWriters(t *Transport, id types.ID) (v2 string, v2ok bool, msg string, msgok bool) {
+	t.mu.RLock()
+	p, ok := t.peers[id].(*peer)
+	t.mu.RUnlock()
+	if !ok || p == nil {
+		return "", false, "", false
+	}
+	ident := func(w *streamWriter) (string, bool) {
+		w.mu.Lock()
+		defer w.mu.Unlock()
+		if !w.working {
+			return "", false
+		}
+		return fmt.Sprintf("%p", w.closer), true
+	}
+	v2, v2ok = ident(p.msgAppV2Writer)
+	msg, msgok = ident(p.writer)
+	return
+}
